@@ -14,6 +14,7 @@ import (
 	"os"
 	"path/filepath"
 	"strings"
+	"sync"
 	"testing"
 	"time"
 
@@ -123,13 +124,38 @@ func c01query(o *c01Obs, ep *Epoch, b *fixture.Built) {
 	}
 	ctx := context.Background()
 	if p := vt.Guard(func() {
+		// the bytes a fetch returned must stay that object's bytes while other objects are fetched: all results are kept
+		// and compared after the pass; a second, concurrent pass fetches from four goroutines
+		kept := make([][]byte, len(b.Sections))
+		kerr := make([]error, len(b.Sections))
+		for i, s := range b.Sections {
+			kept[i], kerr[i] = ep.GetNodeByCid(ctx, s.Cid)
+		}
+		concBad := make([]bool, len(b.Sections))
+		if len(b.Sections) <= 4000 {
+			var wg sync.WaitGroup
+			for w := 0; w < 4; w++ {
+				wg.Add(1)
+				go func(w int) {
+					defer wg.Done()
+					defer func() { recover() }()
+					for i := w % 2; i < len(b.Sections); i += 2 {
+						got, err := ep.GetNodeByCid(ctx, b.Sections[i].Cid)
+						if err == nil && !bytes.Equal(got, b.Sections[i].Data) {
+							concBad[i] = true
+						}
+					}
+				}(w)
+			}
+			wg.Wait()
+		}
 		for i, s := range b.Sections {
 			f := c01Fetch{Sec: i + 1}
-			got, err := ep.GetNodeByCid(ctx, s.Cid)
+			got, err := kept[i], kerr[i]
 			if err != nil {
 				f.Err = err.Error()
 			} else {
-				f.Same = bytes.Equal(got, s.Data)
+				f.Same = bytes.Equal(got, s.Data) && !concBad[i]
 			}
 			oas, err := ep.FindOffsetAndSizeFromCid(ctx, s.Cid)
 			if err != nil {
@@ -177,6 +203,36 @@ func c01query(o *c01Obs, ep *Epoch, b *fixture.Built) {
 	}
 }
 
+// c01small: TLC's integers are 32 bits wide; block times outside that range are replaced - injectively, in the ground
+// truth and in the answers alike - by small negative codes before the record is handed to the judge (equality is all
+// the judge needs)
+func c01small(o *c01Obs) {
+	codes := map[int64]int64{}
+	m := func(v int64) int64 {
+		if v > -(1<<31)+2 && v < 1<<31-2 {
+			return v
+		}
+		if c, ok := codes[v]; ok {
+			return c
+		}
+		codes[v] = -1000000 - int64(len(codes))
+		return codes[v]
+	}
+	ep := o.Epoch
+	ep.Blocks = append([]aBlock{}, o.Epoch.Blocks...)
+	for i := range ep.Blocks {
+		ep.Blocks[i].Blocktime = m(ep.Blocks[i].Blocktime)
+	}
+	o.Epoch = ep
+	o.Blocks = append([]c01Blk{}, o.Blocks...)
+	for i := range o.Blocks {
+		o.Blocks[i].Blocktime = m(o.Blocks[i].Blocktime)
+	}
+	for i := range o.Slots {
+		o.Slots[i].Blocktime = m(o.Slots[i].Blocktime)
+	}
+}
+
 // serve a file over loopback HTTP with Range support (the remote CAR path of the server)
 func c01serve(path string) *httptest.Server {
 	return httptest.NewServer(http.HandlerFunc(func(w http.ResponseWriter, r *http.Request) {
@@ -196,6 +252,7 @@ func c01run(t *testing.T, out *vt.Recorder, ep aEpoch, spec fixture.EpochSpec, c
 	base.Case, base.Note = caseNo, note
 	if err != nil {
 		base.Via, base.Incon = "local", err.Error()
+		c01small(&base)
 		out.Emit(base)
 		return
 	}
@@ -222,6 +279,7 @@ func c01run(t *testing.T, out *vt.Recorder, ep aEpoch, spec fixture.EpochSpec, c
 		if srv != nil {
 			srv.Close()
 		}
+		c01small(&o)
 		out.Emit(o)
 	}
 	os.RemoveAll(filepath.Dir(l.built.CarPath))
@@ -306,6 +364,15 @@ func TestVerifC01(t *testing.T) {
 		spec := fixture.EpochSpec{Epoch: 1, Seed: seed, Fanout: 2, Trailer: true, Blocks: []fixture.BlockSpec{{Slot: 432001, Parent: 432000, Blocktime: 1600000001, Entries: []fixture.EntrySpec{{Txs: specTxs}}}}}
 		n++
 		c01run(t, out, ep, spec, n, "boundary-section-lengths")
+	}
+	// directed: block times outside the range the slot-to-blocktime index can hold (its values are 32 bits wide): index
+	// generation may refuse such a CAR, but must not report success and then answer another block time
+	for k, btime := range []int64{1<<32 + 1700000001, 1 << 32, -5} {
+		ep := aEpoch{Epoch: 1, Blocks: []aBlock{
+			{Slot: 432001, Parent: 432000, Blocktime: 1600000001, Height: -1, Entries: []aEntry{{Txs: []aTx{{Sig: 1, Accts: []int{1}, Loaded: []int{}, Dframes: 1, Mframes: 1}}}}},
+			{Slot: 432003, Parent: 432001, Blocktime: btime, Height: -1, Entries: []aEntry{{Txs: []aTx{{Sig: 2, Accts: []int{1}, Loaded: []int{}, Dframes: 1, Mframes: 1}}}}}}}
+		n++
+		c01run(t, out, ep, ep.spec(seed+int64(k), 2), n, "blocktime-out-of-32-bit-range")
 	}
 	// directed: many first signatures in one two-byte prefix next to a populated prefix, and item counts
 	// around the 10 000-entries-per-bucket boundary of the compact indexes
